@@ -340,3 +340,46 @@ pub fn run_near(ctx: &Ctx) {
     }
     out.finish(&ctx.out_dir, "signear", &[]);
 }
+
+/// Suite `sigmask`: all 64 burst-presence masks at signal level (C02; also C04/C05/C08 traces).
+pub fn run_mask(ctx: &Ctx) {
+    let mut out = Out::create(&ctx.out_dir, "sigmask");
+    let mut rng = Rng::new(ctx.seed ^ 0xC02);
+    let rates: Vec<u32> = if ctx.tier_thorough { vec![8000, 11025, 22050, 44100, 48000] } else { vec![22050] };
+    let gaps: Vec<f64> = if ctx.tier_thorough { vec![1.0, 1.2, 1.5, 3.0, 12.5] } else { vec![1.0, 3.0] };
+    for &rate in &rates {
+        for &gap in &gaps {
+            for hm in 0..8u8 {
+                for tm in 0..8u8 {
+                    if !ctx.tier_thorough && gap > 2.0 && (hm + tm) % 2 == 1 {
+                        continue;
+                    }
+                    let mut lg = gen_line(&mut rng, rate);
+                    lg.line.noise_rel = 0.0;
+                    let (nl, cl) = (rng.range(1, 6) as usize, rng.range(3, 8) as usize);
+                    let h = gen_header(&mut rng, nl, cl).text().into_bytes();
+                    let a = transmission(lg.line.clone(), &mut rng, &h, 0.5 + lg.lead_in / 2.0, lg.pause, gap, hm, tm, 2.5);
+                    let mut r = build(Cfg::Samedec, rate);
+                    let (evs, taps) = run_tapped(&mut r, &a.samples);
+                    let label = format!("sigmask.hm{:03b}.tm{:03b}.gap{:.2}.rate{}.pause{:.3}", hm, tm, gap, rate, lg.pause);
+                    let (op, imp) = link_op(&taps);
+                    out.op(&op, &imp, true);
+                    let (op, imp) = rx_op(rate, &taps, &evs);
+                    out.op(&op, &imp, true);
+                    let msgs = messages(&evs);
+                    let m = if msgs.is_empty() { "-".to_owned() } else { msgs.iter().map(|(t, s)| format!("{}:{}", t, s)).collect::<Vec<_>>().join(",") };
+                    let lone = hm == 0 || gap > 11.5;
+                    out.spec(&format!("spec.sig c02 {},{},{},{} [{}] => {}", hex(&h), hm, tm, lone as u8, label, m));
+                    let evline = show_events(&evs);
+                    out.spec(&format!("spec.sig c04 {} [{}] => {}", rate, label, evline));
+                    out.spec(&format!("spec.sig c05one {} [{}] => {}", hex(&h), label, m));
+                    out.spec(&format!("spec.sig c13life - [{}] => {}", label, evline));
+                    out.count(&format!("hm:{:03b}", hm));
+                    out.count(&format!("tm:{:03b}", tm));
+                    out.count(&format!("bursts_seen:{}", evs.iter().filter(|e| e.burst().is_some()).count()));
+                }
+            }
+        }
+    }
+    out.finish(&ctx.out_dir, "sigmask", &[]);
+}
